@@ -108,6 +108,7 @@ static size_t wire_fault(uint8_t *p, size_t len, const fault_t *f) {
 	else if (!strcmp(k, "trunc")) { len = len ? (size_t)f->a % len : 0; }
 	else if (!strcmp(k, "trunc1")) { if (len) len--; }
 	else if (!strcmp(k, "extend")) { size_t add = 1 + (size_t)f->a % 8; memset(p + len, (int)f->b, add); len += add; }
+	else if (!strcmp(k, "extlong")) { size_t add = 200 + (size_t)f->a % 300; if (len + add > 1400) add = 1400 > len ? 1400 - len : 0; memset(p + len, (int)(f->b | 1), add); len += add; }
 	else if (!strcmp(k, "prefix0")) { size_t add = 1 + (size_t)f->a % 4; memmove(p + add, p, len); memset(p, 0, add); len += add; }
 	else if (!strcmp(k, "zero")) { memset(p, 0, len); }
 	else if (!strcmp(k, "tag")) { if (len) p[0] = (uint8_t)f->a; }
@@ -850,7 +851,21 @@ static void engine_boot(void) {
 
 static void engine_run(void) {
 	char *line, *tok[24];
-	for (int i = 0; i < NSESS; i++) { S[i].used = 0; }
+	for (int i = 0; i < NSESS; i++) {
+		/* every plan starts from the same object contents, so that a value a scheme never writes
+		 * (an unused array slot) cannot carry over from an earlier plan in this executor */
+		sess_t *s = &S[i];
+		s->used = 0;
+		for (int j = 0; j < NBN; j++) { bn_zero(s->b[j]); }
+		if (cur_curve >= 0) {
+			for (int j = 0; j < NEC; j++) { ec_set_infty(s->e[j]); }
+			if (has_pc) {
+				for (int j = 0; j < NG; j++) { g1_set_infty(s->g1[j]); g2_set_infty(s->g2[j]); gt_zero(s->gt[j]); }
+			}
+		}
+		memset(s->buf, 0, sizeof(s->buf));
+		memset(s->msg, 0, sizeof(s->msg));
+	}
 	have_rsa = have_ph = 0;
 	(void)err_get_code();
 	while ((line = plan_next_line()) != NULL) {
@@ -931,11 +946,12 @@ static void engine_run(void) {
 			for (int i = 0; i < NSCHEMES; i++) { if (!strcmp(schemes[i].name, s->scheme)) sc = &schemes[i]; }
 			tr_printf("STEP %d %s %d\n", sid, s->scheme, s->phase);
 			int more = 0, thrown = 0;
-			RLC_TRY {
-				more = sc->fn(s);
-			} RLC_CATCH_ANY {
-				thrown = 1;
-			}
+			/* Phases run OUTSIDE any protected block, as in an application that only looks at return
+			 * values: an error inside a library call then sets the sticky code and the call returns
+			 * its result, which is what the oracles must see (a verifier that returns "accepted" after
+			 * an internal error is a soundness failure). */
+			more = sc->fn(s);
+			if (core_get()->last == &core_get()->error) { err_t e; char *m; err_get_msg(&e, &m); }
 			int code = err_get_code() != RLC_OK;
 			if (thrown) { tr_printf("THROWN %d %s %d\n", sid, s->scheme, s->phase); more = 0; }
 			if (code) tr_printf("CODE %d %s %d\n", sid, s->scheme, s->phase);
